@@ -79,9 +79,13 @@ pub fn gen_chist(rng: &mut Rng, with_dump: bool) -> CHist {
         ("eta", "(lam $x (app ?f (var $x)))", "?f"),
         ("app-assoc", "(app ?a (app ?b ?c))", "(app (app ?a ?b) ?c)"),
         ("sym-intro", "(app ?a ?a)", "(app ?a beta)"),
+        // rules with four and five variables under other names (substitution maps of other sizes and hash layouts)
+        ("app-swap4", "(app (app ?x ?y) (app ?z ?w))", "(app (app ?z ?w) (app ?x ?y))"),
+        ("app-rot5", "(app (app ?x ?y) (app ?z (app ?w ?v)))", "(app (app ?v ?x) (app ?y (app ?z ?w)))"),
+        ("app-xy", "(app ?x ?y)", "(app ?y ?x)"),
     ];
     let rules: Vec<(&str, &str, &str)> = rules.into_iter().filter(|r| with_symbols || r.0 != "sym-intro").collect();
-    let pats = ["(app ?a ?b)", "(lam $x ?b)", "(two $x $y)", "(app ?a ?a)", "(idx $x ?a)", "?a"];
+    let pats = ["(app ?a ?b)", "(lam $x ?b)", "(two $x $y)", "(app ?a ?a)", "(idx $x ?a)", "?a", "(app ?x ?y)", "(app (app ?x ?y) ?z)", "(app (app ?x ?y) (app ?z ?w))", "(app ?left ?right)"];
     let n = rng.range(6, 16);
     let mut ops = vec![];
     let mut nadd = 0;
@@ -134,8 +138,10 @@ fn gen_chist_sym(rng: &mut Rng, with_dump: bool) -> CHist {
         ("let-elim", "(let $x ?b ?e)", "(app (lam $x ?b) ?e)"),
         ("bb-swap", "(bb $x $y ?a)", "(bb $y $x ?a)"),
         ("sum-intro", "(u ?a)", "(sum ?a $x (var $x))"),
+        ("pair-swap4", "(pair (pair ?x ?y) (pair ?z ?w))", "(pair (pair ?z ?w) (pair ?x ?y))"),
+        ("app-xy", "(app ?x ?y)", "(app ?y ?x)"),
     ];
-    let pats = ["(app ?a ?b)", "(lam $x ?b)", "(f $x $y)", "(bb $x $y ?a)", "(sum ?a $x ?b)", "?a", "(h $x $y $x)"];
+    let pats = ["(app ?a ?b)", "(lam $x ?b)", "(f $x $y)", "(bb $x $y ?a)", "(sum ?a $x ?b)", "?a", "(h $x $y $x)", "(app ?x ?y)", "(pair ?x ?y)", "(app (app ?x ?y) (pair ?z ?w))", "(ite ?x ?y ?z)"];
     let n = rng.range(6, 16);
     let mut ops = vec![];
     let mut nadd = 0;
@@ -357,11 +363,21 @@ fn noise(seed: u64, stop: Arc<std::sync::atomic::AtomicBool>, sched: Arc<Mutex<V
                 let _ = Slot::fresh();
             }
         }
+        // unrelated matching and rewriting with four- and five-variable patterns
+        {
+            let mut em: EGraph<LSym> = EGraph::default();
+            let _ = em.add_expr(RecExpr::parse("(app (app (f $a $b) (g $a)) (app (k $b $c) (app c (var $c))))").unwrap());
+            let _ = em.add_expr(RecExpr::parse("(pair (pair (g $a) d) (pair (var $a) (u e)))").unwrap());
+            let pat: Pattern<LSym> = Pattern::parse(if rng.chance(1, 2) { "(app (app ?x ?y) (app ?z (app ?w ?v)))" } else { "(pair (pair ?x ?y) (pair ?z ?w))" }).unwrap();
+            let _ = ematch_all(&em, &pat);
+            let rw: Vec<Rewrite<LSym>> = vec![Rewrite::new("n4", "(app (app ?x ?y) (app ?z ?w))", "(app (app ?z ?w) (app ?x ?y))"), Rewrite::new("n5", "(pair (pair ?p ?q) (pair ?r ?s))", "(pair ?p (pair ?q (pair ?r ?s)))")];
+            let _ = apply_rewrites(&mut em, &rw);
+        }
         // unrelated e-graph work with an analysis attached: towers of constants, every level runs the modify hook (add + union + rebuild)
         {
             let mut ea: EGraph<LArith, CFold> = EGraph::default();
             let mut t = format!("{}", rng.below(7));
-            for _ in 0..rng.range(3, 9) {
+            for _ in 0..(if cfg!(miri) { 2 } else { rng.range(3, 9) }) {
                 t = if rng.chance(1, 2) { format!("(add {} {t})", rng.below(7)) } else { format!("(mul {t} {})", rng.below(7)) };
             }
             let _ = ea.add_expr(RecExpr::parse(&t).unwrap());
